@@ -12,10 +12,10 @@ theorem beq_eq_iff_cmpInt (n m : Int) : ((cmpInt n m == Ordering.eq) = true) ↔
 
 /-- For two values that are valid keys, `==` on the values is `==` on their keys. -/
 theorem Value.asKey_eq_iff {v v' : Value} {k k' : Key} (wv : v.WF) (wv' : v'.WF)
-    (hk : v.asKey = some k) (hk' : v'.asKey = some k') :
+    (hk : v.asKeyK = some k) (hk' : v'.asKeyK = some k') :
     eqV v v' = true ↔ Key.eq k k' = true := by
-  cases v <;> simp only [asKey, Option.some.injEq, reduceCtorEq] at hk <;> subst hk <;>
-  cases v' <;> simp only [asKey, Option.some.injEq, reduceCtorEq] at hk' <;> subst hk' <;>
+  cases v <;> simp only [asKeyK, Option.some.injEq, reduceCtorEq] at hk <;> subst hk <;>
+  cases v' <;> simp only [asKeyK, Option.some.injEq, reduceCtorEq] at hk' <;> subst hk' <;>
   first
     | (rw [eqV_num wv wv' rfl rfl]
        simp only [ev, intVal, EV.cmp, Nat.cast_one, mul_one, beq_eq_iff_cmpInt, Key.eq, Key.toRepr,
